@@ -254,4 +254,12 @@ def rule_right_engine_activates(ctx: Ctx):
     c05.rule_flag_chain(ctx, rule="C11.who")
 
 
-RULES = [rule_identity, rule_guard, rule_who, rule_constructor, rule_reactivation, rule_sentinel, rule_target, rule_model, rule_restore_gate, rule_activation_not_requeued, rule_right_engine_activates]
+def rule_first_event_goes_through_the_loop(ctx: Ctx):
+    """C11.who: the first event of a not-yet-activated (async) machine reaches the processing loop, where the queued activation
+    runs first: `send()` does not answer on its own for any event name."""
+    from . import c13
+
+    c13.rule_send(ctx, rule="C11.who")
+
+
+RULES = [rule_identity, rule_guard, rule_who, rule_constructor, rule_reactivation, rule_sentinel, rule_target, rule_model, rule_restore_gate, rule_activation_not_requeued, rule_right_engine_activates, rule_first_event_goes_through_the_loop]
